@@ -140,6 +140,8 @@ pub struct PGen<'a> {
     /// Output indices of variable outputs (scripts).
     pub variable_outputs: Vec<u8>,
     pub noise: [u8; 9],
+    /// Extra bytes of the stack buffer so that $sp is not always 8-aligned at calls.
+    pub stk_pad: u32,
 }
 
 impl<'a> PGen<'a> {
@@ -154,6 +156,7 @@ impl<'a> PGen<'a> {
             n_blobs: 0,
             variable_outputs: Vec::new(),
             noise: [0x17, 0x18, 0x19, 0x1a, 0x1b, 0x1c, 0x1d, 0x1e, 0x1f],
+            stk_pad: 0,
         }
     }
 
@@ -225,8 +228,9 @@ impl<'a> PGen<'a> {
         emit!(self, ri18(O::MOVI, A, HEAP_BUF));
         emit!(self, r1(O::ALOC, A));
         emit!(self, r2(O::MOVE, HEAP, HP));
+        self.stk_pad = *self.g.pick(&[0u32, 0, 0, 0, 1, 3, 4, 5, 7]);
         emit!(self, r2(O::MOVE, STK, SP));
-        emit!(self, i24(O::CFEI, STK_BUF));
+        emit!(self, i24(O::CFEI, STK_BUF + self.stk_pad));
         if self.mix.unsafe_math {
             emit!(self, ri18(O::MOVI, A, 3));
             emit!(self, r1(O::FLAG, A));
@@ -458,7 +462,7 @@ impl<'a> PGen<'a> {
 
     fn jump(&mut self, depth: u32) {
         let wild = self.wild();
-        let k = if wild { self.g.range(7, 9) } else { self.g.below(7) };
+        let k = if wild { self.g.range(7, 10) } else { self.g.below(7) };
         match k {
             0 | 1 => {
                 // forward skip over k instructions
@@ -541,6 +545,23 @@ impl<'a> PGen<'a> {
                     _ => ri12(O::JAL, LINK, A, self.g.below(8) as u32),
                 };
                 emit!(self, w);
+            }
+            9 => {
+                // targets at the borders of the executable region: $ssp, $ssp-4, $is-4, $sp, $hp
+                let base = *self.g.pick(&[SSP, SSP, SSP, IS, SP, HP]);
+                match self.g.below(3) {
+                    0 => emit!(self, ri12(O::JAL, ZERO, base, 0)),
+                    1 => {
+                        emit!(self, ri12(O::SUBI, A, base, 4));
+                        emit!(self, ri12(O::JAL, LINK, A, 0));
+                    }
+                    _ => {
+                        // same target through an $is-relative register jump
+                        emit!(self, r3(O::SUB, A, base, IS));
+                        emit!(self, ri12(O::DIVI, A, A, 4));
+                        emit!(self, r1(O::JMP, A));
+                    }
+                }
             }
             _ => {
                 // jump-and-link into a reserved link register
@@ -646,7 +667,10 @@ impl<'a> PGen<'a> {
 
     fn call(&mut self) {
         let wild = self.wild();
-        let i = if wild {
+        let self_call = !self.is_script && self.self_index.is_some() && self.g.chance(1, 10);
+        let i = if self_call {
+            self.self_index.unwrap_or(0)
+        } else if wild {
             self.g.usize_below(NC)
         } else {
             // acyclic: scripts call anything, contract i calls only higher indices
@@ -677,8 +701,8 @@ impl<'a> PGen<'a> {
         self.load_const(B, amount);
         let a = if wild { self.g.usize_below(NA) } else { 0 };
         self.addr_of_asset(C, a);
-        // gas: all, a drawn amount, or tiny
-        let gas_reg = match self.g.below(if wild { 6 } else { 3 }) {
+        // gas: all, a drawn amount, or tiny (a self-call gets little, so the recursion stays shallow)
+        let gas_reg = match if self_call { 4 } else { self.g.below(if wild { 6 } else { 3 }) } {
             0 | 1 => CGAS,
             2 => {
                 let v = self.g.range(2_000, 60_000);
@@ -790,7 +814,7 @@ impl<'a> PGen<'a> {
             3 | 4 => {
                 // LDC needs $sp == $ssp: drop the stack buffer, load, re-create the buffer
                 if !wild || self.g.bool() {
-                    emit!(self, i24(O::CFSI, STK_BUF));
+                    emit!(self, i24(O::CFSI, STK_BUF + self.stk_pad));
                 }
                 let (off, len) = (self.g.below(16) * 4, self.g.below(12) * 4);
                 self.load_const(C, off);
@@ -809,7 +833,7 @@ impl<'a> PGen<'a> {
                 };
                 emit!(self, r4(O::LDC, src, C, D, mode));
                 emit!(self, r2(O::MOVE, STK, SP));
-                emit!(self, i24(O::CFEI, STK_BUF));
+                emit!(self, i24(O::CFEI, STK_BUF + self.stk_pad));
             }
             5 if self.n_blobs > 0 || wild => {
                 emit!(self, ri12(O::ADDI, B, TAB, OFF_MISC + blob * 32));
@@ -991,6 +1015,21 @@ impl<'a> PGen<'a> {
             13 => self.wide(),
             _ => self.alu(),
         }
+    }
+
+    /// Receipt flood: `logs` LOG receipts in a tight loop before the ordinary items (C28: the
+    /// 65 535-receipt limit and the two reserved slots).
+    pub fn flood_program(mut self, logs: u64, n: usize) -> Vec<u32> {
+        self.preamble();
+        self.load_const(CNT, logs);
+        emit!(self, r4(O::LOG, CNT, ZERO, ZERO, ZERO));
+        emit!(self, ri12(O::SUBI, CNT, CNT, 1));
+        emit!(self, ri12(O::JNZB, CNT, ZERO, 1));
+        for _ in 0..n {
+            self.item(0);
+        }
+        emit!(self, r1(O::RET, ONE));
+        self.out
     }
 
     /// Whole program: preamble, `n` items with failures spliced at seeded positions, epilogue.
